@@ -264,6 +264,70 @@ def check_fn(c):
                     ok = v[0] == "i" and v[2] < (1 << 62)
                     why_ = "requested size %s" % show(v)
                 emit("ALLOC", "%s(%s)" % (short, render(ft, n)), ok, why_, t["span"], [n])
+    check_float_wraps(c, emit)
+
+
+def check_float_wraps(c, emit):
+    """termination of `while x - c > A { x -= B }` style loops: each round must change x, which floating point only does
+    while |x| < 2^53 * |B|; the obligation is discharged when the value entering the loop is known to be that small"""
+    ft = c.ft
+    from .terms import const_float
+    for head, body in ft.cfg.loops().items():
+        if not c.block_live(head):
+            continue
+        for local, heads in ft._phi.items():
+            if head not in heads or ft.fn["locals"][local]["ty"] not in ("f64", "f32"):
+                continue
+            phi = ("phi", ft.path, head, local)
+            ops = ft.phi_operands(phi)
+            inits = [v for p_, v in ops.items() if p_ not in body]
+            backs = [v for p_, v in ops.items() if p_ in body]
+            if len(inits) != 1 or not backs:
+                continue
+            steps = []
+            for v in backs:
+                if v[0] == "bin" and v[1] in ("Sub", "Add") and strip_site(v[2]) == strip_site(phi) and const_float(v[3]) is not None:
+                    steps.append(abs(const_float(v[3])))
+                else:
+                    steps = None
+                    break
+            if not steps:
+                continue
+            # the loop guard compares the same variable
+            guards = []
+            for b in body:
+                tm = ft.blocks[b]["term"]
+                if tm["k"] == "switch":
+                    d = ft.switch_term(b)
+                    if d[0] == "bin" and d[1] in ("Gt", "Lt", "Ge", "Le") and any(strip_site(y) == strip_site(phi) for y in walk(d[2])) and any(s_ not in body for s_ in ft.cfg.succ[b]):
+                        guards.append((b, d))
+            if not guards:
+                continue
+            step = min(steps)
+            b, d = guards[0]
+            # |x| never exceeds max(|value entering the first wrap loop|, |threshold| + |reference| + step): a wrap loop
+            # only moves x towards the window.  Follow the entering value back through earlier wrap loops on the same variable.
+            init = inits[0]
+            for _ in range(4):
+                if init[0] == "phi" and init[1] == ft.path and init[3] == local and init[2] in ft.cfg.loops():
+                    i2 = [v for p_, v in ft.phi_operands(init).items() if p_ not in ft.cfg.loops()[init[2]]]
+                    if len(i2) == 1:
+                        init = i2[0]
+                        continue
+                break
+            iv = c.av(init, head)
+            thr = const_float(d[3])
+            ref = d[2][3] if (d[2][0] == "bin" and d[2][1] in ("Sub", "Add")) else None
+            rv = c.av(ref, b) if ref is not None else ("f", 0.0, 0.0, False)
+            ok = False
+            bound = None
+            if iv[0] == "f" and rv[0] == "f" and thr is not None:
+                bound = max(abs(iv[1]), abs(iv[2]), abs(thr) + max(abs(rv[1]), abs(rv[2])) + step)
+                ok = bound < (2.0 ** 52) * step          # NaN never enters the loop: comparisons with NaN are false
+            emit("TERM", "wrap(%s)" % render(ft, d), ok,
+                 "loop moves the value by %g per round while it stays beyond the threshold; value entering: %s, reference: %s => |x| <= %s (progress needs |x| < 2^52 * %g)" % (
+                     step, show(iv), show(rv), "%g" % bound if bound is not None else "?", step),
+                 ft.blocks[b]["term"].get("span"), [init], None, [d])
 
 
 def lift_to_callers(c, goal):
@@ -271,6 +335,8 @@ def lift_to_callers(c, goal):
     function or the length of a slice/vector parameter, re-express it over the actual arguments of every call site of
     this context and prove it there (one level up)."""
     co, k = goal
+    if c.fn["kind"] == "Closure":
+        return lift_to_creator(c, goal)
     for a in co:
         if not (a[0] == "param" or (a[0] == "L" and a[1] == "param" and len(a) == 3)):
             return False
@@ -306,6 +372,84 @@ def lift_to_callers(c, goal):
                 if la is None:
                     return False
                 new[la] = new.get(la, 0) + coef
+        if not cc.prove((new, nk), site):
+            return False
+    return True
+
+
+def lift_to_creator(c, goal):
+    """the same for a closure body: if the goal only talks about captured variables (their values, or the lengths of
+    captured slices / vectors), restate it over the captured values in the function that creates the closure and prove
+    it at the place where the closure is handed over (relations such as `i < v.len()` from an enclosing loop guard do
+    not survive in the closure's abstract environment, but they hold at that place)"""
+    co, k = goal
+    callers = c.eng.callers.get((c.path, c.args), set())
+    if not callers:
+        return False
+
+    def cap_index(a):
+        # ('deref', ('field', ('deref', ('param', 1)), k)) | ('field', ('deref', ('param', 1)), k) | by-value self
+        x, der = a, 0
+        while isinstance(x, tuple) and x and x[0] == "deref":
+            x, der = x[1], der + 1
+        if isinstance(x, tuple) and x and x[0] == "field" and isinstance(x[2], int):
+            b_ = x[1]
+            if b_ == ("param", 1) or (b_[0] == "deref" and b_[1] == ("param", 1)):
+                return x[2], der - (1 if b_[0] == "deref" else 0) + (1 if b_[0] == "deref" else 0) - (1 if b_[0] == "deref" else 0)
+        return None
+    for (cpath, cargs, site) in callers:
+        if site is None:
+            return False
+        cc = c.eng.ctx(cpath, cargs)
+        if not cc.solved:
+            return False
+        t = cc.ft.blocks[site]["term"]
+        if t["k"] != "call":
+            return False
+        pos = len(cc.ft.blocks[site]["stmts"])
+        caps = None
+        for a in t["args"]:
+            at_ = cc.ft.operand(a, site, pos)
+            for y in walk(at_):
+                if y[0] == "agg" and y[1] == "closure" and y[2] == c.path:
+                    caps = y[3]
+        if caps is None:
+            return False
+        new, nk = {}, k
+        for a, coef in co.items():
+            if isinstance(a, tuple) and a and a[0] == "L" and a[1] == "param" and len(a) == 4 and a[2] == 1 and isinstance(a[3], int) and a[3] < len(caps):
+                la = cc.len_atom(caps[a[3]], site)
+                if la is None:
+                    return False
+                new[la] = new.get(la, 0) + coef
+                continue
+            if isinstance(a, tuple) and a and a[0] == "un" and a[1] == "PtrMetadata":
+                # length of a captured slice
+                fk = [y for y in walk(a[2]) if y[0] == "field" and isinstance(y[2], int) and (y[1] == ("param", 1) or y[1] == ("deref", ("param", 1)))]
+                if len(fk) != 1 or fk[0][2] >= len(caps):
+                    return False
+                la = cc.len_atom(caps[fk[0][2]], site)
+                if la is None:
+                    return False
+                new[la] = new.get(la, 0) + coef
+                continue
+            ci = None
+            x, nd = a, 0
+            while isinstance(x, tuple) and x and x[0] == "deref":
+                x, nd = x[1], nd + 1
+            if isinstance(x, tuple) and x and x[0] == "field" and isinstance(x[2], int) and x[2] < len(caps) and (x[1] == ("param", 1) or x[1] == ("deref", ("param", 1))):
+                ci = x[2]
+            if ci is None:
+                return False
+            pt = caps[ci]
+            for _ in range(nd):
+                pt = pt[2] if pt[0] == "ref" else ("deref", pt)
+            lp = cc.linear(pt, site)
+            if lp is None:
+                return False
+            for x2, cx in lp[0].items():
+                new[x2] = new.get(x2, 0) + coef * cx
+            nk += coef * lp[1]
         if not cc.prove((new, nk), site):
             return False
     return True
